@@ -86,3 +86,133 @@ Example C11_enum_nested :
   ds_of (ev "enum E : A enum F : X : Y endenum : B endenum A B X Y" boot) = Some [CInt 1; CInt 0; CInt 1; CInt 0].
 Proof. exact ex_enum_nested. Qed.
 
+(* ================= all field lists (Proofs/EnumGen*.v) =================
+
+   LEVEL of these theorems: the immediate words themselves, in the order and with the token reads
+   with which build1 processes `enum Name : f1 : f2 ... : fn endenum` once it has read the token
+   `enum`: [enum_seq n] = i_enum ;; n x (read the token ":" ;; i_enum_field) ;; read the token
+   "endenum" ;; i_endenum.  Not included: the dictionary dispatch of build_word (":" resolving to
+   the field word) and the idle pre-run of build1 between tokens; the lexer is abstracted by the
+   hypotheses [reads] / [feeds_fields] (the pending input yields these words), which
+   C11_enum_reader_independent makes checkable by computation ([check_enum_text]) and which hold
+   of real text (C11_enum_all_fields_instance, which also shows that eval of the text on boot
+   gives exactly the dictionary the theorem states).
+   Hypothesis on the state s in which `enum` is met, [enum_pre] (boolean [enum_pre_b]): the
+   current context is not a meta context and the debug map is as long as the code.
+   Result [efinal s fields i l]: s with the dictionary extended by the constants f_k = k in the
+   order [enum_order] (swap_remove purge of the two field words: the last two constants first,
+   then the others in definition order) and the pending input / last-token record advanced;
+   every other component - code, debug map, heap, the five stacks, contexts, meter, limits, log,
+   output - is that of s (C11_enum_final_state). *)
+From Xeh Require Import Proofs.EnumGen Proofs.EnumGenMain Proofs.EnumGenEx Proofs.UnwindWitness.
+
+(* MAIN: for every list of field names the builder succeeds and yields [efinal]: s plus the constants f_k = k *)
+Theorem C11_enum_all_fields :
+  forall fo pr rf s E fs i1 l1 i2 l2,
+  enum_pre s -> reads pr (input s) (last_tok s) E i1 l1 -> feeds_fields pr i1 l1 fs i2 l2 ->
+  (Z.of_nat (length fs) <= two127)%Z ->
+  enum_seq fo pr rf (length fs) s = ROk tt (efinal s (numbered 0 fs) i2 l2).
+Proof. exact enum_seq_spec. Qed.
+Check C11_enum_all_fields :
+  forall fo pr rf s E fs i1 l1 i2 l2,
+  enum_pre s -> reads pr (input s) (last_tok s) E i1 l1 -> feeds_fields pr i1 l1 fs i2 l2 ->
+  (Z.of_nat (length fs) <= two127)%Z ->
+  enum_seq fo pr rf (length fs) s = ROk tt (efinal s (numbered 0 fs) i2 l2).
+
+(* the same with the hypotheses as boolean checks *)
+Theorem C11_enum_all_fields_checked :
+  forall pr fo rf s E fs i2 l2,
+  enum_pre_b s = true -> check_enum_text pr s E fs = Some (i2, l2) ->
+  (Z.of_nat (length fs) <= two127)%Z ->
+  enum_seq fo pr rf (length fs) s = ROk tt (efinal s (numbered 0 fs) i2 l2).
+Proof. exact enum_seq_checked. Qed.
+Check C11_enum_all_fields_checked :
+  forall pr fo rf s E fs i2 l2,
+  enum_pre_b s = true -> check_enum_text pr s E fs = Some (i2, l2) ->
+  (Z.of_nat (length fs) <= two127)%Z ->
+  enum_seq fo pr rf (length fs) s = ROk tt (efinal s (numbered 0 fs) i2 l2).
+
+(* what [efinal] is, component by component: only the dictionary and the reader bookkeeping differ from s *)
+Theorem C11_enum_final_state :
+  forall s fields i l,
+  let s' := efinal s fields i l in
+  dict s' = dict s ++ enum_order (map const_of fields) /\
+  heap s' = heap s /\ code s' = code s /\ dbg s' = dbg s /\ sources s' = sources s /\
+  ds s' = ds s /\ rs s' = rs s /\ flows s' = flows s /\ loops s' = loops s /\ special s' = special s /\
+  cx s' = cx s /\ nested s' = nested s /\ meter s' = meter s /\
+  insn_limit s' = insn_limit s /\ heap_limit s' = heap_limit s /\ stack_limit s' = stack_limit s /\
+  rlog s' = rlog s /\ out s' = out s /\ stopping s' = stopping s /\
+  input s' = i /\ last_tok s' = l.
+Proof. exact efinal_fields. Qed.
+Check C11_enum_final_state :
+  forall s fields i l,
+  let s' := efinal s fields i l in
+  dict s' = dict s ++ enum_order (map const_of fields) /\
+  heap s' = heap s /\ code s' = code s /\ dbg s' = dbg s /\ sources s' = sources s /\
+  ds s' = ds s /\ rs s' = rs s /\ flows s' = flows s /\ loops s' = loops s /\ special s' = special s /\
+  cx s' = cx s /\ nested s' = nested s /\ meter s' = meter s /\
+  insn_limit s' = insn_limit s /\ heap_limit s' = heap_limit s /\ stack_limit s' = stack_limit s /\
+  rlog s' = rlog s /\ out s' = out s /\ stopping s' = stopping s /\
+  input s' = i /\ last_tok s' = l.
+
+(* the purge of the two field words leaves the constants in the order [enum_order]: last, last but one, then the rest in definition order *)
+Theorem C11_enum_purge_order :
+  forall cs, Forall (fun e => is_dconst e = true) cs ->
+  purge_all (enum_imms ++ cs) = enum_order cs.
+Proof. exact purge_enum. Qed.
+Check C11_enum_purge_order :
+  forall cs, Forall (fun e => is_dconst e = true) cs ->
+  purge_all (enum_imms ++ cs) = enum_order cs.
+
+(* a field after i128::MAX fails with EOverflow before anything is defined: dictionary and enum entry are those before the field word *)
+Theorem C11_enum_field_overflow :
+  forall fo pr rf s E fields i l f i1 l1,
+  length (dbg s) = length (code s) -> reads pr i l f i1 l1 -> enum_next_value fields = None ->
+  i_enum_field fo pr (S rf) (estate s E fields i l) = RErr EOverflow None (estate1 s E fields i1 l1).
+Proof. exact field_overflow. Qed.
+Check C11_enum_field_overflow :
+  forall fo pr rf s E fields i l f i1 l1,
+  length (dbg s) = length (code s) -> reads pr i l f i1 l1 -> enum_next_value fields = None ->
+  i_enum_field fo pr (S rf) (estate s E fields i l) = RErr EOverflow None (estate1 s E fields i1 l1).
+
+(* the reader depends on the pending input and the last-token record only (so [reads] / [tokreads] can be computed on a skeleton state) *)
+Theorem C11_enum_reader_independent :
+  forall pr t,
+  next_name pr t = rmap t (next_name pr (tk_skel (input t) (last_tok t))) /\
+  get_token pr t = rmap t (get_token pr (tk_skel (input t) (last_tok t))).
+Proof. exact (fun pr t => conj (next_name_indep pr t) (get_token_indep pr t)). Qed.
+Check C11_enum_reader_independent :
+  forall pr t,
+  next_name pr t = rmap t (next_name pr (tk_skel (input t) (last_tok t))) /\
+  get_token pr t = rmap t (get_token pr (tk_skel (input t) (last_tok t))).
+
+(* non-vacuity: boot and the state after reading `enum` of a real text satisfy the hypotheses *)
+Example C11_enum_all_fields_hypotheses :
+  enum_pre_b boot = true /\ enum_pre_b ex_s = true /\
+  exists i2 l2, check_enum_text wit_pr ex_s "Color" ["Red"; "Green"; "Blue"; "Alpha"] = Some (i2, l2).
+Proof. exact ex_hypotheses. Qed.
+
+(* the theorem applied to that text, and eval of the text on boot gives exactly the stated dictionary and nothing else *)
+Example C11_enum_all_fields_instance :
+  exists i2 l2,
+    enum_seq wit_fo wit_pr 999 4 ex_s =
+      ROk tt (efinal ex_s [("Red", 0%Z); ("Green", 1%Z); ("Blue", 2%Z); ("Alpha", 3%Z)] i2 l2) /\
+    enum_order (map const_of [("Red", 0%Z); ("Green", 1%Z); ("Blue", 2%Z); ("Alpha", 3%Z)]) =
+      [mkdent "Alpha" (DConst (CInt 3)); mkdent "Blue" (DConst (CInt 2));
+       mkdent "Red" (DConst (CInt 0)); mkdent "Green" (DConst (CInt 1))] /\
+    match wit_eval ex_txt boot with
+    | ROk _ s' => dict s' = dict boot ++ enum_order (map const_of [("Red", 0%Z); ("Green", 1%Z); ("Blue", 2%Z); ("Alpha", 3%Z)]) /\
+                  same_machine (set_dict boot (dict s')) s'
+    | _ => False
+    end.
+Proof. exact ex_applied. Qed.
+
+(* the overflow branch on boot: rejected with EOverflow, not reported by the watch, unwound completely (C10) *)
+Example C11_enum_overflow_unwound :
+  enum_next_value [("A", i128_max)] = None /\
+  wit_built ovf_txt boot = RErr EOverflow None (wit_state (wit_built ovf_txt boot)) /\
+  calls_bad wit_fo wit_pr wit_rf (length (dict boot)) wit_fuel
+            (length (nested (wit_opened ovf_txt boot))) (wit_opened ovf_txt boot) = false /\
+  wit_eval ovf_txt boot = RErr EOverflow None (wit_unwound ovf_txt boot) /\
+  same_machine boot (wit_unwound ovf_txt boot).
+Proof. exact ex_overflow. Qed.
